@@ -556,7 +556,11 @@ std::ostream& type_t::print_declaration(std::ostream& os) const
     default: kind = "type(" + std::to_string(get_kind()) + ")"; break;
     }
 
-    if (range) {
+    if (range && get(0).get_kind() == SCALAR) {
+        // scalar[N] is stored as the range [0, N - 1] over the scalar primitive
+        os << "scalar[";
+        get_range().second.get(0).print(os) << ']';
+    } else if (range) {
         get(0).print_declaration(os);
         const auto [lower, upper] = get_range();
         const bool default_range = lower.get_kind() == CONSTANT && upper.get_kind() == CONSTANT &&
@@ -572,7 +576,13 @@ std::ostream& type_t::print_declaration(std::ostream& os) const
         get(0).print_declaration(os) << '[';
         get_array_size().get_range().second.get(0).print(os) << ']';
     } else if (label) {
-        os << get_label(0);
+        // generated labels ("#scalarset3" of an anonymous scalar set, "Template::" of a template-local
+        // one) are not names a declaration can be written with: print what they stand for
+        const auto& name = get_label(0);
+        if (name.empty() || name.front() == '#' || (name.size() >= 2 && name.compare(name.size() - 2, 2, "::") == 0))
+            get(0).print_declaration(os);
+        else
+            os << name;
     } else if (typeDef) {
         os << kind << " ";
         get(0).print_declaration(os) << ' ' << get_label(0);
